@@ -1432,8 +1432,8 @@ func main() {
 	rep.Finish(map[string]interface{}{
 		"evaluations":         tal.evals,
 		"distinct_nontrivial": tal.nontrivial,
-		"rule": fmt.Sprintf("part H: every ordered selection of 1..%d destinations with distinct (host, instance) out of 9, in both alphabets; every assignment of address forms (with/without port) for <= %d destinations and the two uniform assignments for 4, x %d keys%s; owner compared with Carbon's ring and with the first listing of the same set; part R: every such ring of alphabet B (every form assignment) with <= 2 destinations and every %s other one as a real route, %d keys each (tie and wrap-around keys first); part E: every history of 1..%d Add/DelDestination calls from every ordered start of 1..%d destinations out of 5, %d keys observed before and after the last call. non-trivial = a ring with >= 2 destinations each of which owns at least one of the checked keys, or a history whose last step moved some but not all observed keys",
-			maxDest, allForms, len(hkeys.keys), map[bool]string{true: fmt.Sprintf("; the mixed form assignments for 4 destinations x %d keys", len(general.keys)), false: ""}[mixedKeys != nil], map[int]string{1: "", 10: "10th"}[every], rkeys, depth, maxStart, ekeys),
+		"rule": fmt.Sprintf("part H: every ordered selection of 1..%d destinations with distinct (host, instance) out of 9, in both alphabets; every assignment of address forms (with/without port) for <= %d destinations and the two uniform assignments for 4, x %d keys%s; owner compared with Carbon's ring and with the first listing of the same set; part R: %s of alphabet B (every form assignment) as a real route, %d keys each (tie and wrap-around keys first); part E: every history of 1..%d Add/DelDestination calls from every ordered start of 1..%d destinations out of 5, %d keys observed before and after the last call. non-trivial = a ring with >= 2 destinations each of which owns at least one of the checked keys, or a history whose last step moved some but not all observed keys",
+			maxDest, allForms, len(hkeys.keys), map[bool]string{true: fmt.Sprintf("; the mixed form assignments for 4 destinations x %d keys", len(general.keys)), false: ""}[mixedKeys != nil], map[bool]string{true: "every such ring", false: fmt.Sprintf("every such ring with <= 2 destinations and every %dth other one", every)}[every == 1], rkeys, depth, maxStart, ekeys),
 		"samples":                          tal.samples,
 		"exhaustive":                       hComplete && rComplete && eComplete,
 		"rings":                            tal.rings,
